@@ -200,6 +200,16 @@ macro_rules! driver {
                         ([lum($a), lum($b)], [RelativeContrast::get_contrast_ratio($a, $b), RelativeContrast::get_contrast_ratio($b, $a)], [p($a, $b), p($b, $a)])
                     });
                     $o.wcag("old", $ty, $src, $x, $y, r);
+                    // the free function behind the deprecated trait, on the same two luminances
+                    let r = catch(|| {
+                        let lum: fn(_) -> F = $lum_old;
+                        let (la, lb) = (lum($a), lum($b));
+                        let ab = palette::contrast_ratio(la, lb);
+                        let ba = palette::contrast_ratio(lb, la);
+                        let th = |r: F| [r >= 4.5, r >= 3.0, r >= 7.0, r >= 4.5, r >= 3.0];
+                        ([la, lb], [ab, ba], [th(ab), th(ba)])
+                    });
+                    $o.wcag("fn", $ty, $src, $x, $y, r);
                 }};
             }
 
